@@ -260,21 +260,12 @@ func ExpectedOf(x poly.Sequence) (Expected, []poly.Location) {
 	return e, trees
 }
 
-// SameTree compares two location trees: spans, nesting, complement, join and the partial
-// flags of leaves (flags poly also sets on inner nodes are ignored).
+// SameTree compares two locations by what they denote: the same stranded spans in the same reading order with the
+// same partial markers (insdc.StructureSegments). The nesting through which that is said is not compared: a writer may
+// print complement(join(a,b)) as join(complement(b),complement(a)), splice a join into its parent or drop a
+// complement of a complement, and the location is still the one it was given.
 func SameTree(a, b poly.Location) bool {
-	if a.Complement != b.Complement || a.Join != b.Join || len(a.SubLocations) != len(b.SubLocations) {
-		return false
-	}
-	if len(a.SubLocations) == 0 {
-		return a.Start == b.Start && a.End == b.End && a.FivePrimePartial == b.FivePrimePartial && a.ThreePrimePartial == b.ThreePrimePartial
-	}
-	for i := range a.SubLocations {
-		if !SameTree(a.SubLocations[i], b.SubLocations[i]) {
-			return false
-		}
-	}
-	return true
+	return insdc.SameSegments(insdc.StructureSegments(a), insdc.StructureSegments(b))
 }
 
 // TreeOfText parses location text with the strict INSDC parser and returns the tree in poly's representation.
